@@ -66,6 +66,10 @@ def groups(tier, seed):
     return out
 
 
+def count(group):
+    """closed-form size of a group (independent of the generator): all assignments of 3 values to n samples"""
+    return 3 ** len(group["pos"])
+
 def cases(group):
     n = len(group["pos"])
     for ci, y in enumerate(itertools.product([0.0, 1.0, 2.0], repeat=n)):
